@@ -47,6 +47,7 @@ type Gen struct {
 	budget   int
 	noBreak  bool
 	past     []string // variables of counter loops that have ended (still readable afterwards)
+	lastCtx, lastCtxKind string // the most recent {% ctx %} variable and the kind of its source
 	inRegion int
 }
 
@@ -504,14 +505,17 @@ func (g *Gen) genCond() *ACond {
 	case "int":
 		c.Op = cmpOps[r.Intn(6)]
 		v := o.I + int64(r.Intn(3)-1)
-		if v < 0 || (o.I == math.MaxInt64 && v < 0) {
+		if (o.I == math.MaxInt64 && v < 0) || (o.I == math.MinInt64 && v > 0) {
 			v = o.I
-			if v < 0 {
-				v = 0
-			}
 		}
 		if o.W32 && v > math.MaxInt32 {
 			v = math.MaxInt32
+		}
+		if o.W32 && v < math.MinInt32 {
+			v = math.MinInt32
+		}
+		if v < 0 {
+			g.tag("cond:negative-literal")
 		}
 		lit = fmt.Sprint(v)
 	case "uint":
@@ -538,11 +542,11 @@ func (g *Gen) genCond() *ACond {
 		case 1:
 			v = o.F + 0.25
 		}
-		if v < 0 || v >= 1e15 {
-			v = math.Abs(o.F)
-			if v >= 1e15 {
-				v = 12.5
-			}
+		if math.Abs(v) >= 1e15 {
+			v = 12.5
+		}
+		if v < 0 {
+			g.tag("cond:negative-literal")
 		}
 		lit = floatText(v)
 		g.flits[lit] = v
@@ -625,7 +629,11 @@ func (g *Gen) allowed(k string) bool {
 func (g *Gen) genItems(depth int, n int) []*Ast {
 	var out []*Ast
 	for i := 0; i < n; i++ {
-		out = append(out, g.genItem(depth))
+		if it := g.genItem(depth); it.K == "seq" {
+			out = append(out, it.Body...)
+		} else {
+			out = append(out, it)
+		}
 	}
 	return out
 }
@@ -708,11 +716,17 @@ func (g *Gen) genItem(depth int) *Ast {
 							v = int64(o.U % (1 << 62))
 						}
 						v += int64(r.Intn(3) - 1)
-						if v < 0 {
+						if v < 0 && (o.Kind == "uint" || o.I == math.MaxInt64) {
 							v = 0
 						}
 						if o.W32 && v > math.MaxInt32 {
 							v = math.MaxInt32
+						}
+						if o.W32 && v < math.MinInt32 {
+							v = math.MinInt32
+						}
+						if v < 0 {
+							g.tag("switch:negative-case")
 						}
 						c.Cond.L = fmt.Sprint(v)
 					default:
@@ -787,11 +801,48 @@ func (g *Gen) genItem(depth int) *Ast {
 		}
 		g.tag("print:past-loop-var")
 		return &Ast{K: "print", Path: g.past[r.Intn(len(g.past))]}
+	case "ctxcmp":
+		// a copy of a text or number variable compares exactly like its source, in every operator
+		o, ok := g.pickOperand([]string{"string", "string", "bytes", "int", "uint"}[r.Intn(5)])
+		if !ok {
+			return &Ast{K: "text", Text: g.marker()}
+		}
+		name := fmt.Sprintf("c%d", r.Intn(3))
+		g.tag("ctxcmp:" + o.Kind)
+		mk := func(path string) *Ast {
+			op := cmpOps[r.Intn(6)]
+			c := &ACond{L: path, Op: op, RLit: true}
+			switch o.Kind {
+			case "string", "bytes":
+				cands := []string{string(o.S), "2", "abc", "A", "b", "zz", string(o.S) + "0"}
+				c.R, c.RQuote = cands[r.Intn(len(cands))], `"`
+				if c.R == "" {
+					c.R = "a"
+				}
+			case "int":
+				c.R = fmt.Sprint(o.I)
+			default:
+				c.R = fmt.Sprint(o.U)
+			}
+			a := &Ast{K: "if", Cond: c, Then: []*Ast{{K: "text", Text: g.marker()}}, HasElse: true, Else: []*Ast{{K: "text", Text: g.marker()}}}
+			return a
+		}
+		seq := &Ast{K: "seq", Body: []*Ast{{K: "ctx", CtxVar: name, CtxSrc: o.Path}}}
+		for i := 0; i < 1+r.Intn(3); i++ {
+			seq.Body = append(seq.Body, mk(name))
+		}
+		return seq
 	case "dyncond":
 		v := g.dynVar()
+		textVar := false
+		if g.lastCtx != "" && r.Chance(50) {
+			v = g.lastCtx
+			textVar = g.lastCtxKind == "string" || g.lastCtxKind == "bytes"
+			g.tag("cond:on-ctx-copy-of-" + g.lastCtxKind)
+		}
 		c := &ACond{L: v, Op: cmpOps[r.Intn(6)], R: fmt.Sprint(r.Intn(12)), RLit: true}
-		if v[0] == 'c' && r.Chance(50) {
-			c = &ACond{L: v, Op: cmpOps[r.Intn(2)], R: []string{"lit", "xy", "abc", "John"}[r.Intn(4)], RLit: true, RQuote: `"`}
+		if v[0] == 'c' && (textVar || r.Chance(50)) {
+			c = &ACond{L: v, Op: cmpOps[r.Intn(6)], R: []string{"lit", "xy", "abc", "John", "2", "A"}[r.Intn(6)], RLit: true, RQuote: `"`}
 		}
 		if v[0] == 'o' {
 			c = &ACond{L: v, Op: cmpOps[r.Intn(2)], R: fmt.Sprint(r.Bool()), RLit: true}
@@ -973,7 +1024,10 @@ func (g *Gen) genCLoop(depth int) *Ast {
 		n = 0
 	}
 	up := r.Chance(65)
-	start := int64(r.Intn(3))
+	start := int64(r.Intn(5) - 2)
+	if start < 0 {
+		g.tag("cloop:negative-literal")
+	}
 	if up {
 		a.Step = "++"
 		a.Init = fmt.Sprint(start)
@@ -982,9 +1036,6 @@ func (g *Gen) genCLoop(depth int) *Ast {
 			a.Op, a.Lim = "<", fmt.Sprint(start+int64(n))
 		case 1:
 			a.Op, a.Lim = "<=", fmt.Sprint(start+int64(n)-1)
-			if start+int64(n)-1 < 0 {
-				a.Op, a.Lim = "<", fmt.Sprint(start)
-			}
 		default:
 			a.Op, a.Lim = "!=", fmt.Sprint(start+int64(n))
 		}
@@ -1016,9 +1067,15 @@ func (g *Gen) genCLoop(depth int) *Ast {
 			if z >= 0 {
 				kinds = append(kinds, "uint", "uint32")
 			}
+			if r.Chance(8) {
+				kinds = []string{"float"} // not an integer kind: the loop reports a wrong bound
+			}
 			k := kinds[r.Intn(len(kinds))]
 			name := fmt.Sprintf("b%d", len(g.data.Statics))
-			g.data.Statics = append(g.data.Statics, StaticVar{Name: name, Kind: k, Ptr: r.Chance(70), I: z, U: uint64(z), S: []byte(fmt.Sprint(z))})
+			g.data.Statics = append(g.data.Statics, StaticVar{Name: name, Kind: k, Ptr: r.Chance(70), I: z, U: uint64(z), F: float64(z), S: []byte(fmt.Sprint(z))})
+			if k == "float" {
+				g.flits[floatText(float64(z))] = float64(z)
+			}
 			g.tag("cloop:bound-var:" + k)
 			return name
 		}
@@ -1081,6 +1138,22 @@ func (g *Gen) genRLoop(depth int) *Ast {
 		a.Src = "nosuch.List"
 		kind = "none"
 		g.tag("rloop:missing")
+	case r.Chance(8):
+		// a variable that exists but holds nothing to iterate over: text, a counter, nil
+		var cand []string
+		for _, sv := range g.data.Statics {
+			switch sv.Kind {
+			case "setstring", "setbytes", "counter", "nil", "string", "int":
+				cand = append(cand, sv.Name)
+			}
+		}
+		if len(cand) > 0 {
+			a.Src = cand[r.Intn(len(cand))]
+			kind = "none"
+			g.tag("rloop:not-a-collection")
+		} else {
+			a.Src = "user.Finance.History"
+		}
 	default:
 		a.Src = "user.Finance.History"
 		g.tag("rloop:slice")
@@ -1137,6 +1210,13 @@ func (g *Gen) genCtx() *Ast {
 		g.tag("ctx:lit")
 	} else {
 		o, _ := g.pickOperand("int", "uint", "float", "string", "bytes", "bool", "missing")
+		if r.Chance(30) {
+			// text sources: the new variable must compare like its source in every operator
+			if so, ok := g.pickOperand([]string{"string", "string", "bytes"}[r.Intn(3)]); ok {
+				o = so
+			}
+		}
+		g.lastCtx, g.lastCtxKind = a.CtxVar, o.Kind
 		a.CtxSrc = o.Path
 		g.tag("ctx:var:" + o.Kind)
 		// sources whose storage belongs to the engine: loop variables and template-made counters
